@@ -780,9 +780,6 @@ def correspond(ctx):
     ctx.log("model self-test and footprints done")
     # ---- differential runs of every parallel routine
     r = ctx.rng
-    suspects = set()
-    for g in (_SUMMARY.get("regions") or []):
-        pass
     reps = 3 if quick else 10
     groups = 3 if quick else 14
     # corpus first
